@@ -15,6 +15,10 @@ class NotModelled(Exception):
     pass
 
 
+import os as _os
+TRACE = bool(_os.environ.get("VERIF_TRACE"))
+
+
 class VMem:
     """byte memories per space + region mapping (same mapping as the tag engine)"""
 
@@ -174,12 +178,23 @@ class Datapath:
     # ---- output stage
     def output(self, k, y):
         """zero point, clamp, lookup table"""
-        y = y + k.ofm.zp
-        if k.ofm.bits <= 16:
-            y = np.clip(y, k.act_min, k.act_max)  # (the 16-bit activation range registers do not apply to a 32-bit OFM)
+        if k.ofm.bits != 32 or k.uses_lut:
+            # a plain 32-bit result is written as it is: the OFM zero point only takes part in the 8/16-bit output stage (the
+            # compiler's own SOFTMAX lowering leaves the zero point of the int8 input on its 32-bit intermediates and reads
+            # them back with zero point 0; with a table the zero point positions the 8-bit index)
+            y = y + k.ofm.zp
+        if k.ofm.bits <= 16 or k.uses_lut:
+            y = np.clip(y, k.act_min, k.act_max)  # (the 16-bit activation range registers do not apply to a plain 32-bit OFM)
         if k.uses_lut:
-            if k.ifm.bits != 8 or k.ofm.bits not in (8,):
+            if k.ifm.bits != 8 or k.ofm.bits not in (8, 32):
                 raise NotModelled("lookup table with non 8-bit data")
+            if k.ofm.bits == 32:
+                # 256 entries of 32 bit (1 KiB = four 256-byte slots); indexed by the clamped 8-bit intermediate result
+                raw = self.m.read_bytes(HW.SHRAM_REGION, self.hw["lut_addr"] + 256 * k.lut_index, 1024).astype(np.int64).reshape(256, 4)
+                lut = raw[:, 0] | (raw[:, 1] << 8) | (raw[:, 2] << 16) | (raw[:, 3] << 24)
+                lut = np.where(lut >= (1 << 31), lut - (1 << 32), lut)
+                idx = np.clip(y + 128, 0, 255)
+                return lut[idx]
             lut = self.m.read_bytes(HW.SHRAM_REGION, self.hw["lut_addr"] + 256 * k.lut_index, 256).astype(np.int64)
             # table is indexed by the (clamped) 8-bit result re-interpreted as unsigned offset from the type minimum
             lo = -128 if k.ofm.signed else 0
@@ -215,6 +230,12 @@ class Datapath:
         return self.output(k, y)
 
     def pool(self, k):
+        if k.sub == "REDUCE_SUM":
+            # sum over the IFM depth, one output channel; OFM scaling as for the other pooling modes
+            x = self.m.read_elems(k.ifm, (0, k.oh, 0, k.ow, 0, k.ic)) - k.ifm.zp
+            acc = x.sum(axis=2, keepdims=True)
+            sc, sh = k.ofm_scale if k.ofm_global_scale else (1, 0)
+            return self.output(k, apply_scale(acc, sc, sh, k.rounding))
         if k.ifm.bits not in (8, 16):
             raise NotModelled("%d-bit pooling" % k.ifm.bits)
         xin = self.ifm_upscaled(k)
@@ -263,12 +284,18 @@ class Datapath:
                      and (k.ifm2 is None or (k.bcast & 0x80) or k.ifm2.bits == k.ifm.bits))
             if not (same16 or mixed):
                 raise NotModelled("16-bit elementwise " + str(k.sub))
-        if wide and (k.sub not in ("ADD", "SUB", "MUL", "MIN", "MAX") or k.uses_lut):
+        if wide and k.sub not in ("ADD", "SUB", "MUL", "MIN", "MAX", "SHR", "SHL", "CLZ"):
             raise NotModelled("32-bit elementwise " + str(k.sub))
+        if k.uses_lut and not (k.ifm.bits == 8 and k.ofm.bits in (8, 32)):
+            raise NotModelled("lookup table on %d-bit data" % k.ifm.bits)
         if wide and k.sub in ("ADD", "SUB") and (k.ifm_scale_mode != 0 or k.opa_scale[0] != 1 or k.opb_scale[0] != 1):
             raise NotModelled("32-bit add/sub with operand scaling")
         a = self.m.read_elems(k.ifm, (0, k.oh, 0, k.ow, 0, k.oc)) - k.ifm.zp
         if k.sub in HW.EW_UNARY:
+            if k.sub == "CLZ":
+                u = a & 0xFFFFFFFF
+                y = np.where(u == 0, 32, 31 - np.floor(np.log2(np.maximum(u, 1).astype(np.float64))).astype(np.int64))
+                return self.output(k, y)
             if k.sub == "ABS":
                 y = np.abs(a)
                 sc, sh = k.ofm_scale
@@ -289,6 +316,19 @@ class Datapath:
             first_is_ifm2 = False
         if k.sub in ("MIN", "MAX"):
             y = np.minimum(a, b) if k.sub == "MIN" else np.maximum(a, b)
+            return self.output(k, y)
+        if k.sub == "SHR":
+            sh_ = np.clip(b, 0, 63)
+            if k.rounding == "NATURAL":
+                y = np.where(sh_ > 0, (a + (np.int64(1) << np.maximum(sh_ - 1, 0))) >> sh_, a)
+            elif k.rounding == "TRUNCATE":
+                y = a >> sh_
+            else:
+                y = rdp(a, sh_)
+            return self.output(k, y)
+        if k.sub == "SHL":
+            y = a << np.clip(b, 0, 31)
+            y = ((y + (1 << 31)) & 0xFFFFFFFF) - (1 << 31)  # 32-bit wrap
             return self.output(k, y)
         if k.sub == "MUL":
             sc, sh = k.ofm_scale
@@ -342,6 +382,9 @@ class Datapath:
             else:
                 raise NotModelled(k.kind)
             self.m.write_elems(k.ofm, (0, k.oh, 0, k.ow, 0, k.oc), y)
+            if TRACE:
+                print("TRACE op", k.idx, k.kind, getattr(k, "sub", None), "ofm_scale", k.ofm_scale, k.rounding, "bcast", hex(k.bcast), "scalar", k.scalar,
+                      "y[0,0,:8]", np.asarray(y)[0, 0, :8].tolist())
             # the operation's working memory (IFM buffers, accumulators) inside the lookup-table area no longer holds a table
             lo_, hi_ = self.hw["lut_addr"], min(self.hw["shram_bytes"], self.hw["lut_addr"] + HW.LUT_BYTES)
             for a_, b_ in HW.shram_work_ranges(k, self.acc):
